@@ -678,8 +678,9 @@ void h_has_tasks(void) {
 
 #ifdef GC
 /* global_control bookkeeping (src/tbb/global_control.cpp): control_storage family, control_storage_comparator, global_control_impl::create / destroy /
-   remove_and_check_if_empty / erase_if_present, global_control_active_value.  One job per dynamic class of the storage (GC_KIND): the virtual calls of the sliced
-   code go through dispatchers generated from what each class overrides.
+   remove_and_check_if_empty / erase_if_present, global_control_active_value.  The harnesses are parametric in the dynamic class of the storage (GC_KIND; the virtual
+   calls of the sliced code go through dispatchers generated from what each class overrides); property C16 speaks about max_allowed_parallelism only, so the jobs
+   instantiate GC_KIND = allowed_parallelism_control (remove_and_check_if_empty, whose only caller passes a scheduler handle: lifetime_control, list membership only).
    The std::set<global_control*, control_storage_comparator> is abstract (TRUSTED: it keeps its elements unique and ordered under the comparator it is given):
    NOBJ named control objects OBJ[j] (entry j is THE j-th control; OBJ[0] is the control being created/destroyed, OBJ[g_k] an arbitrary other control, OBJ[g_w] the
    control that attains the active value, any further slot the element begin() is going to return) with a liveness flag each, plus g_unnamed further elements.
@@ -716,13 +717,14 @@ static size_t *active_ref(struct cstorage *c) {
 }
 #define CS_ACTIVE(c) (*active_ref(c))
 static bool set_empty(struct gset *s); static set_iter set_find(struct gset *s, struct gcontrol *p); static void set_insert(struct gset *s, struct gcontrol *p);
-static void set_erase(struct gset *s, set_iter it); static set_iter set_begin(struct gset *s);
+static void set_erase(struct gset *s, set_iter it); static set_iter set_begin(struct gset *s); static set_iter set_rbegin(struct gset *s);
 #define SET_EMPTY(s) set_empty(&(s))
 #define SET_FIND(s, p) set_find(&(s), (p))
 #define SET_END(s) ((set_iter)NULL)
 #define SET_INSERT(s, p) set_insert(&(s), (p))
 #define SET_ERASE(s, it) set_erase(&(s), (it))
 #define SET_BEGIN(s) set_begin(&(s))
+#define SET_RBEGIN(s) set_rbegin(&(s))
 #define SET_DEREF(it) (it)
 static unsigned STUB_default_num_threads(void) { return g_ncpu; }
 static unsigned STUB_tc_max_num_workers(void) { return g_hard; }
@@ -764,6 +766,14 @@ static set_iter set_begin(struct gset *s) {
     unsigned b = nondet_unsigned(); __CPROVER_assume(b < NOBJ && g_live[b]);                 /* the first element is one of the named ones (by choice of the names) */
     __CPROVER_assume((!g_live[0] || b == 0 || !gc_less(&OBJ[0], &OBJ[b])) && (!g_live[1] || b == 1 || !gc_less(&OBJ[1], &OBJ[b]))
                   && (!g_live[2] || b == 2 || !gc_less(&OBJ[2], &OBJ[b])) && (!g_live[3] || b == 3 || !gc_less(&OBJ[3], &OBJ[b])));   /* TRUSTED: std::set order */
+    return &OBJ[b];
+}
+static set_iter set_rbegin(struct gset *s) {   /* the LAST element under the sliced comparator (same trusted std::set order as set_begin) */
+    set_guard(s);
+    OBLIGATION(NAMED_LIVE || g_unnamed != 0, "C16.gcontrol: rbegin() is dereferenced only on a non-empty list");
+    unsigned b = nondet_unsigned(); __CPROVER_assume(b < NOBJ && g_live[b]);
+    __CPROVER_assume((!g_live[0] || b == 0 || !gc_less(&OBJ[b], &OBJ[0])) && (!g_live[1] || b == 1 || !gc_less(&OBJ[b], &OBJ[1]))
+                  && (!g_live[2] || b == 2 || !gc_less(&OBJ[b], &OBJ[2])) && (!g_live[3] || b == 3 || !gc_less(&OBJ[b], &OBJ[3])));   /* TRUSTED: std::set order */
     return &OBJ[b];
 }
 #define KINDP (GC_KIND == KIND_allowed_parallelism_control)
@@ -818,14 +828,12 @@ static void gc_post_invariant(void) {
 }
 void h_gc_table(void) {
     gc_setup(false, false);
-    OBLIGATION(controls[max_allowed_parallelism]->kind == KIND_allowed_parallelism_control && controls[thread_stack_size]->kind == KIND_stack_size_control
-            && controls[terminate_on_exception]->kind == KIND_terminate_on_exception_control && controls[scheduler_handle]->kind == KIND_lifetime_control && parameter_max == 4,
-               "C16.gcontrol.table: every public parameter is served by the storage class written for it");
+    OBLIGATION(controls[max_allowed_parallelism]->kind == KIND_allowed_parallelism_control && max_allowed_parallelism < parameter_max,
+               "C16.gcontrol.table: max_allowed_parallelism is served by the storage class written for it (minimum preferred, workers = value - 1)");
     size_t a = nondet_size_t(), b = nondet_size_t();
-    struct cstorage *c = &STOR[nondet_bool() ? (nondet_bool() ? 0 : 1) : (nondet_bool() ? 2 : 3)];
+    struct cstorage *c = controls[max_allowed_parallelism];
     g_c = c; g_check_lock = false;
-    OBLIGATION(CS_is_first_arg_preferred(c, a, b) == SPEC_PREF(c->kind, a, b),
-               "C16.gcontrol.preference: max_allowed_parallelism prefers the smaller value, thread_stack_size and terminate_on_exception the larger one, the scheduler-handle list none");
+    OBLIGATION(CS_is_first_arg_preferred(c, a, b) == (a < b), "C16.gcontrol.preference: max_allowed_parallelism prefers the smaller value");
     VACUITY_END();
 }
 void h_gc_comparator(void) {
@@ -890,6 +898,269 @@ void h_gc_active_value(void) {
     else if (KINDP) OBLIGATION(r == ((g_hard != 0 && (size_t)g_hard + 1 < g_active0) ? (size_t)g_hard + 1 : g_active0), "C16.gcontrol.active: max_allowed_parallelism reports the extremum over the live controls, capped by the hard limit of worker threads + 1");
     else OBLIGATION(r == g_active0, "C16.gcontrol.active: the value reported is the extremum over the live controls");
     OBLIGATION(g_c->my_active_value == g_active0 && g_live[0] == g_live0[0] && OTHERS_UNCHANGED && g_told_calls == 0, "C16.gcontrol.active: reading changes nothing");
+    VACUITY_END();
+}
+#endif
+
+#ifdef PROXY
+/* thread_request_serializer_proxy: mandatory concurrency around a soft limit of 0 (register_mandatory_request, set_active_num_workers, enable/disable_mandatory_concurrency).
+   Shared state: my_num_mandatory_requests (atomic, moved only inside a read or write section of my_mutex), my_is_mandatory_concurrency_enabled and the serializer's
+   soft limit (written only under the writer lock).  Ghost: g_U = the limit the user last set through the proxy; g_pend_en / g_pend_dis = number of callers (any
+   thread) that made the 0 -> positive / 1 -> 0 transition of the request counter and have not yet finished their attempt to switch mandatory concurrency on / off.
+     PINV: the flag is on  => the serializer's limit is the ONE mandatory worker and the user's limit is 0;   the flag is off => the serializer's limit is the user's.
+     QINV: limit 0, requests > 0, flag off => somebody's attempt to switch it on is still under way;    requests <= 0, flag on => somebody's attempt to switch it off is under way.
+   Both hold whenever nobody holds the writer lock.  Rely: other threads run these same functions: any number of complete sections while I hold no lock (also inside
+   upgrade_to_writer, which may release the lock); only counter movements of other readers while I hold the read lock; nothing while I hold the write lock. */
+struct serializer { int my_soft_limit; };
+struct proxy { int my_num_mandatory_requests; bool my_is_mandatory_concurrency_enabled; struct serializer my_serializer; int my_mutex; };
+static struct proxy *g_p; static int g_mode, g_U, g_locks, g_upgrades, g_sets; static long g_pend_en, g_pend_dis; static bool g_me_en, g_me_dis, g_user_call; static int g_user_arg, g_domain;
+#define NUMMAX (1L << 20)
+#define P_NUM (g_p->my_num_mandatory_requests)
+#define P_EN (g_p->my_is_mandatory_concurrency_enabled)
+#define P_SOFT (g_p->my_serializer.my_soft_limit)
+#define PINV (g_U >= 0 && (P_EN ? (P_SOFT == 1 && g_U == 0) : P_SOFT == g_U))
+#define QRANGE (g_pend_en >= (g_me_en ? 1 : 0) && g_pend_dis >= (g_me_dis ? 1 : 0) && g_pend_en < NUMMAX && g_pend_dis < NUMMAX && -NUMMAX < P_NUM && P_NUM < NUMMAX)
+#define Q_ON (!(g_U == 0 && P_NUM > 0 && !P_EN) || g_pend_en > 0)
+#define Q_OFF (!(P_NUM <= 0 && P_EN) || g_pend_dis > 0)
+static void interfere_all(void) {
+    P_NUM = nondet_int(); P_EN = nondet_bool(); P_SOFT = nondet_int(); g_U = nondet_int(); g_pend_en = nondet_long(); g_pend_dis = nondet_long();
+    __CPROVER_assume(PINV && QRANGE && Q_ON && Q_OFF);
+}
+static void interfere_readers(void) {     /* other holders of the read lock: the counter moves, attempts are added (finishing one needs the write lock) */
+    long e0 = g_pend_en, d0 = g_pend_dis;
+    P_NUM = nondet_int(); g_pend_en = nondet_long(); g_pend_dis = nondet_long();
+    __CPROVER_assume(g_pend_en >= e0 && g_pend_dis >= d0 && QRANGE && Q_ON && Q_OFF);
+}
+#define LOCK_RW(m, w) do { __CPROVER_assert(g_mode == 0, "C16.mandatory.lock: the proxy mutex is not taken twice"); interfere_all(); \
+      if (g_domain == 1) __CPROVER_assume(!(g_user_arg == 0 && g_U == 0 && P_EN && P_NUM <= 0)); if (g_domain == 2) __CPROVER_assume(g_user_arg == 0 && g_U == 0 && P_EN && P_NUM <= 0); \
+      g_mode = (w) ? 2 : 1; g_locks++; } while (0)
+#define UPGRADE_TO_WRITER(m) do { OBLIGATION(g_mode == 1, "C16.mandatory.lock: upgrade of the read lock this call holds"); interfere_all(); g_mode = 2; g_upgrades++; } while (0)
+#define UNLOCK_RW(m, w) do { __CPROVER_assert(g_mode != 0, "C16.mandatory.lock: unlock of a held lock"); \
+      if (g_me_en) { g_me_en = false; g_pend_en--; } if (g_me_dis) { g_me_dis = false; g_pend_dis--; } \
+      OBLIGATION(!P_EN || (P_SOFT == 1 && g_U == 0), "C16.mandatory: while mandatory concurrency is on the serializer may request exactly ONE worker, and only under a user limit of 0"); \
+      OBLIGATION(P_EN || P_SOFT == g_U, "C16.mandatory: while mandatory concurrency is off the serializer's limit is the limit the user set (the mandatory worker has been given back)"); \
+      OBLIGATION(Q_ON, "C16.mandatory: when a call is done, limit 0 with a registered mandatory request means mandatory concurrency is on - unless another caller that registered a first request has not yet finished switching it on"); \
+      OBLIGATION(Q_OFF, "C16.mandatory: when a call is done, no mandatory request left means mandatory concurrency is off - unless another caller that withdrew the last request has not yet finished switching it off"); \
+      g_mode = 0; } while (0)
+#define ENABLED_STORE(self, v) do { OBLIGATION(g_mode == 2, "C16.mandatory.lock: the mandatory-concurrency flag is written only under the writer lock"); (self)->my_is_mandatory_concurrency_enabled = (v); } while (0)
+static void STUB_serializer_set_active_num_workers(struct proxy *self, int v) {
+    OBLIGATION(g_mode == 2, "C16.mandatory.lock: the serializer's limit is changed only under the proxy's writer lock");
+    self->my_serializer.my_soft_limit = v; g_sets++;
+    if (g_user_call) g_U = g_user_arg;              /* the user's limit is in force from here */
+}
+#define ATOMIC_FETCH_ADD_AT(site, x, v) ({ OBLIGATION(g_mode != 0, "C16.mandatory.lock: the request counter moves only inside a section of the proxy mutex (a writer sees it stable)"); \
+      if (g_mode == 1) interfere_readers(); int old_ = (x); int v_ = (v); (x) += v_; \
+      if (v_ > 0 && old_ == 0) { g_pend_en++; g_me_en = true; } if (v_ < 0 && old_ == 1) { g_pend_dis++; g_me_dis = true; } \
+      __CPROVER_assume(-NUMMAX < (x) && (x) < NUMMAX && g_pend_en < NUMMAX && g_pend_dis < NUMMAX); \
+      __CPROVER_assert(Q_ON && Q_OFF, "C16.mandatory: guarantee: a counter movement keeps the census of pending switch attempts"); old_; })
+#define ATOMIC_LOAD_AT(site, x) ({ if (g_mode == 1) interfere_readers(); (x); })
+#define ATOMIC_LOAD(x) ATOMIC_LOAD_AT(plain, x)
+#include "proxy.inc"
+int IN_delta, IN_soft;
+static void mk_proxy(struct proxy *p) {
+    g_p = p; p->my_mutex = 0; g_mode = 0; g_locks = g_upgrades = g_sets = 0; g_me_en = g_me_dis = false; g_user_call = false; g_user_arg = 0; g_domain = 0;
+    interfere_all();
+}
+void h_proxy_register(void) {
+    struct proxy p; mk_proxy(&p);
+    int delta = IN_delta = nondet_int(); __CPROVER_assume(-1 <= delta && delta <= 1);        /* market::adjust_demand asserts the range; arena::advertise_new_work / out_of_work send -1, 0, +1 */
+    int U0 = g_U;
+    proxy_register_mandatory_request(&p, delta);
+    OBLIGATION(g_mode == 0 && g_locks == (delta != 0 ? 1 : 0) && g_upgrades <= 1 && !g_me_en && !g_me_dis, "C16.mandatory.lock: the proxy mutex is taken at most once and released; a switch attempt this call owed has been made");
+    OBLIGATION(g_sets <= 1, "C16.mandatory: one call changes the serializer's limit at most once");
+    VACUITY_END();
+}
+void h_proxy_set_active(void) {
+    struct proxy p; mk_proxy(&p);
+    int soft = IN_soft = nondet_int(); __CPROVER_assume(soft >= 0 && soft < NUMMAX);
+    g_user_call = true; g_user_arg = soft;
+#ifdef PENDING_DISABLE
+    g_domain = 2;
+#else
+    g_domain = 1;
+#endif
+    proxy_set_active_num_workers(&p, soft);
+    OBLIGATION(g_mode == 0 && g_locks == 1 && g_sets == 1 && g_U == soft, "C16.mandatory.lock: the proxy mutex is taken once and released; the serializer is told a limit exactly once");
+    if (soft != 0) OBLIGATION(!P_EN && P_SOFT == soft, "C16.mandatory: a raised limit gives the mandatory worker back: the flag is off and the serializer's limit is the user's");
+    else if (P_NUM > 0) OBLIGATION(P_EN && P_SOFT == 1, "C16.mandatory: limit 0 with a registered mandatory request: exactly one worker may be requested");
+    else OBLIGATION(P_SOFT == 0, "C16.mandatory: limit 0 without a mandatory request: no worker may be requested");
+    VACUITY_END();
+}
+#endif
+
+#ifdef PLUMB
+/* threading_control_impl::set_active_num_workers / adjust_demand, threading_control::set_active_num_workers: the limit decided by global_control reaches both the
+   serializer proxy and the permit manager unchanged; a mandatory delta is registered with the proxy and handed to the permit manager unchanged */
+struct tc_impl { unsigned hard_limit; }; struct tc_client { void *pm_client; }; struct tcontrol { int id; };
+static int g_px_calls, g_pm_calls, g_px_arg, g_pm_arg, g_order, g_rmr_calls, g_rmr_arg, g_ad_calls, g_ad_md, g_ad_wd; static void *g_ad_c;
+static void STUB_proxy_set_active_num_workers(struct tc_impl *s, int v) { g_px_calls++; g_px_arg = v; }
+static void STUB_pm_set_active_num_workers(struct tc_impl *s, int v) { g_pm_calls++; g_pm_arg = v; }
+static void STUB_proxy_register_mandatory_request(struct tc_impl *s, int md) { g_rmr_calls++; g_rmr_arg = md; }
+static void STUB_pm_adjust_demand(struct tc_impl *s, void *c, int md, int wd) { g_ad_calls++; g_ad_c = c; g_ad_md = md; g_ad_wd = wd; }
+static int g_locked, g_lock_calls, g_refs, g_pimpl_calls; static unsigned g_pimpl_arg; static struct tcontrol g_tc, *g_exists; static int g_threading_control_mutex;
+#define LOCK_MUTEX(m) do { __CPROVER_assert(!g_locked, "C16.limit: the global threading-control mutex is not taken twice"); g_locked = 1; g_lock_calls++; } while (0)
+#define UNLOCK_MUTEX(m) do { __CPROVER_assert(g_locked, "C16.limit: unlock of a held mutex"); g_locked = 0; } while (0)
+static struct tcontrol *STUB_get_threading_control(bool is_public) { OBLIGATION(g_locked && !is_public, "C16.limit: the threading control is looked up under the global mutex, with a private reference"); if (g_exists) g_refs++; return g_exists; }
+static void STUB_pimpl_set_active_num_workers(struct tcontrol *t, unsigned v) { g_pimpl_calls++; g_pimpl_arg = v; OBLIGATION(t == g_exists && g_refs == 1, "C16.limit: the limit is applied to the live threading control, while the reference taken protects it"); }
+static bool STUB_tc_release(struct tcontrol *t, bool is_public, bool blocking) { OBLIGATION(t == g_exists && !is_public && !blocking && g_pimpl_calls == 1, "C16.limit: the private reference is released after the limit was applied"); g_refs--; return false; }
+struct uint_pair { unsigned first, second; };
+static size_t g_app; static unsigned g_ncpu_p;
+static size_t STUB_active_parallelism(void) { return g_app; }
+static unsigned STUB_default_num_threads(void) { return g_ncpu_p; }
+#include "plumbing.inc"
+size_t IN_app; unsigned IN_ncpu;
+void h_tci_limits(void) {
+    g_app = IN_app = nondet_size_t(); g_ncpu_p = IN_ncpu = nondet_unsigned();
+    /* the active max_allowed_parallelism is >= 1 (controls carry values >= 1, the default is max(1, default_num_threads)) and fits an unsigned (listed assumption) */
+    __CPROVER_assume(g_app >= 1 && g_app <= UINT_MAX && g_ncpu_p >= 1 && g_ncpu_p <= (1u << 20));
+    struct uint_pair r = tci_calculate_workers_limits();
+    OBLIGATION((size_t)r.first + 1 <= g_app, "C16.limit: a new threading control starts with at most L - 1 workers for the max_allowed_parallelism L in force");
+    OBLIGATION((size_t)r.first + 1 == g_app || (size_t)r.first + 1 >= r.second, "C16.limit: the initial soft limit is exactly L - 1 unless the hard limit of worker threads caps it");
+    VACUITY_END();
+}
+void h_tci_soft_limit(void) {
+    g_app = IN_app = nondet_size_t(); g_ncpu_p = IN_ncpu = nondet_unsigned(); unsigned hard = nondet_unsigned();
+    __CPROVER_assume(g_app >= 1 && g_app <= UINT_MAX && g_ncpu_p >= 1 && hard >= 1);
+    unsigned r = tci_calc_workers_soft_limit(hard);
+    OBLIGATION((size_t)r + 1 <= g_app, "C16.limit: the soft limit computed for any hard limit is at most L - 1");
+    OBLIGATION((size_t)r + 1 == g_app || (size_t)r + 1 >= hard, "C16.limit: the soft limit is exactly L - 1 unless the hard limit of worker threads caps it");
+    VACUITY_END();
+}
+void h_tci_set_active(void) {
+    struct tc_impl t; t.hard_limit = nondet_unsigned(); unsigned soft = nondet_unsigned();
+    __CPROVER_assume(soft <= t.hard_limit && soft <= (unsigned)INT_MAX);        /* in-code assertion; assumed of the caller (see assumptions) */
+    g_px_calls = g_pm_calls = 0;
+    tci_set_active_num_workers(&t, soft);
+    OBLIGATION(g_px_calls == 1 && g_pm_calls == 1 && (unsigned)g_px_arg == soft && (unsigned)g_pm_arg == soft, "C16.limit: a new soft limit reaches the serializer proxy and the permit manager, once each, unchanged");
+    VACUITY_END();
+}
+void h_tci_adjust_demand(void) {
+    struct tc_impl t; struct tc_client c; c.pm_client = nondet_ptr(); int md = nondet_int(), wd = nondet_int();
+    g_rmr_calls = g_ad_calls = 0;
+    tci_adjust_demand(&t, c, md, wd);
+    OBLIGATION(g_rmr_calls == 1 && g_rmr_arg == md && g_ad_calls == 1 && g_ad_c == c.pm_client && g_ad_md == md && g_ad_wd == wd, "C16.mandatory: one demand change registers its mandatory delta with the proxy and reaches the permit manager with the same deltas for the same client");
+    VACUITY_END();
+}
+void h_tc_set_active(void) {
+    g_exists = nondet_bool() ? &g_tc : NULL; g_locked = g_lock_calls = g_refs = g_pimpl_calls = 0; unsigned soft = nondet_unsigned();
+    tc_set_active_num_workers(soft);
+    OBLIGATION(!g_locked && g_lock_calls == 1 && g_refs == 0, "C16.limit: the global mutex is released and the private reference given back");
+    OBLIGATION(g_pimpl_calls == (g_exists ? 1 : 0) && (!g_exists || g_pimpl_arg == soft), "C16.limit: the limit is forwarded unchanged exactly when a threading control exists");
+    VACUITY_END();
+}
+#endif
+
+#ifdef JOIN
+/* the arena's reference word my_references = workers inside << 12 | external references: num_workers_active, is_recall_requested, is_joinable, try_join,
+   on_thread_leaving.  Rely/guarantee on the one word for any number of other threads (SC): ghost census g_wrk / g_ext of the worker / external references held,
+   g_me_wrk / g_me_ext mine.  INV_R: word == g_wrk * 4096 + g_ext, g_ext <= 4095 (assumed: fewer than 4096 external references, the width of the field),
+   my own references are counted.  The allotment my_num_workers_allotted is changed by the market at any time.
+   try_join is check-then-add (no CAS): what holds is that a worker adds its reference only after it SAW fewer workers inside than allotted. */
+#include "join_defs.inc"
+struct tcontrol_j { int id; }; struct snapshot_j { int epoch; };
+struct arena_j { unsigned my_references, my_num_workers_allotted; struct tcontrol_j *my_threading_control; };
+static struct arena_j *g_a; static long g_wrk, g_ext, g_me_wrk, g_me_ext; static bool g_gone; static int g_adds, g_subs; static unsigned g_seen_active, g_seen_allot, g_sub_val, g_remaining;
+#define WMAX (1L << 19)
+#define INV_R (0 <= g_ext && g_ext <= 4095 && 0 <= g_wrk && g_wrk < WMAX && g_me_wrk <= g_wrk && g_me_ext <= g_ext && (long)g_a->my_references == g_wrk * 4096 + g_ext)
+static void interfere(void) {
+    __CPROVER_assert(!g_gone, "C16.join: the arena is not touched after this thread gave its reference back (another thread may have destroyed it)");
+    g_a->my_references = nondet_unsigned(); g_a->my_num_workers_allotted = nondet_unsigned(); g_wrk = nondet_long(); g_ext = nondet_long();
+    __CPROVER_assume(INV_R);
+}
+#define ATOMIC_LOAD_AT(site, x) ({ interfere(); if (&(x) == &self->my_references) g_seen_active = (x) >> 12; else g_seen_allot = (x); (x); })
+#define ATOMIC_FETCH_ADD_AT(site, x, v) ({ interfere(); unsigned old_ = (x), v_ = (v); g_adds++; \
+      if (v_ == ref_worker) { __CPROVER_assume(g_wrk + 1 < WMAX); g_wrk++; g_me_wrk++; } else if (v_ == ref_external) { __CPROVER_assume(g_ext + 1 <= 4095); g_ext++; g_me_ext++; } \
+      else OBLIGATION(0, "C16.join: guarantee: only whole worker / external references are added to the word"); \
+      (x) = old_ + v_; __CPROVER_assert(INV_R, "C16.join: guarantee: the word is workers inside * 4096 + external references"); old_; })
+#define ATOMIC_FETCH_SUB_AT(site, x, v) ({ interfere(); unsigned old_ = (x), v_ = (v); g_subs++; g_sub_val = v_; \
+      if (v_ == ref_worker) { OBLIGATION(g_me_wrk >= 1, "C16.join: guarantee: a thread gives back only a worker reference it holds"); g_wrk--; g_me_wrk--; } \
+      else if (v_ == ref_external) { OBLIGATION(g_me_ext >= 1, "C16.join: guarantee: a thread gives back only an external reference it holds"); g_ext--; g_me_ext--; } \
+      else OBLIGATION(0, "C16.join: guarantee: only whole worker / external references are taken from the word"); \
+      (x) = old_ - v_; __CPROVER_assert(INV_R, "C16.join: guarantee: the word is workers inside * 4096 + external references"); g_remaining = (x); g_gone = true; old_; })
+static int g_oow, g_prep, g_try, g_free; static bool g_mand, g_destroy_ok;
+static bool STUB_mandatory_test(struct arena_j *a) { __CPROVER_assert(!g_gone, "C16.join: the arena is not touched after the reference was given back"); return g_mand; }
+static void STUB_out_of_work(struct arena_j *a) { g_oow++; OBLIGATION(!g_gone, "C16.join: out_of_work runs while this thread's reference still protects the arena"); }
+static struct snapshot_j STUB_prepare_client_destruction(struct tcontrol_j *tc, struct arena_j *a) { g_prep++; OBLIGATION(!g_gone, "C16.join: the destruction snapshot is taken while this thread's reference still protects the arena"); struct snapshot_j s; s.epoch = nondet_int(); return s; }
+static bool STUB_try_destroy_client(struct tcontrol_j *tc, struct snapshot_j s) { g_try++; return g_destroy_ok; }
+static void STUB_free_arena(struct arena_j *a) { g_free++; }
+#include "join.inc"
+static struct arena_j *mk_arena_j(void) {
+    struct arena_j *a = malloc(sizeof(struct arena_j)); __CPROVER_assume(a != NULL);
+    static struct tcontrol_j tc; a->my_threading_control = &tc;
+    g_a = a; g_gone = false; g_adds = g_subs = 0; g_me_wrk = g_me_ext = 0; g_oow = g_prep = g_try = g_free = 0; g_mand = nondet_bool(); g_destroy_ok = nondet_bool();
+    a->my_references = nondet_unsigned(); a->my_num_workers_allotted = nondet_unsigned(); g_wrk = nondet_long(); g_ext = nondet_long(); __CPROVER_assume(INV_R);
+    return a;
+}
+void h_try_join(void) {
+    struct arena_j *a = mk_arena_j();
+    bool r = arena_try_join(a);
+    OBLIGATION(r == (g_adds == 1) && g_adds <= 1 && g_subs == 0 && g_me_wrk == (r ? 1 : 0) && g_me_ext == 0, "C16.join: try_join returns true exactly when it added ONE worker reference for the caller; a refused worker leaves the word alone");
+    OBLIGATION(r == (g_seen_active < g_seen_allot), "C16.join: a worker joins only after it saw fewer workers inside the arena than the arena is allotted, and is refused otherwise");
+    VACUITY_END();
+}
+void h_is_recall_requested(void) {
+    struct arena_j *a = mk_arena_j(); g_me_wrk = 1; __CPROVER_assume(g_wrk >= 1);
+    bool r = arena_is_recall_requested(a);
+    OBLIGATION(r == (g_seen_active > g_seen_allot) && g_adds == 0 && g_subs == 0, "C16.join: a worker is recalled exactly when it sees more workers inside than allotted; the test changes nothing");
+    VACUITY_END();
+}
+void h_on_thread_leaving(void) {
+    struct arena_j *a = mk_arena_j(); bool worker = nondet_bool(); unsigned ref_param = worker ? ref_worker : ref_external;
+    if (worker) { g_me_wrk = 1; __CPROVER_assume(g_wrk >= 1); } else { g_me_ext = 1; __CPROVER_assume(g_ext >= 1); }     /* the leaving thread holds the reference it gives back */
+    arena_on_thread_leaving(a, ref_param);
+    OBLIGATION(g_subs == 1 && g_sub_val == ref_param && g_adds == 0 && g_me_wrk == 0 && g_me_ext == 0, "C16.join: a leaving thread gives back exactly the one reference it holds (worker or external), once");
+    OBLIGATION(g_try == 0 || (g_try == 1 && g_remaining == 0), "C16.join: the arena is offered for destruction only by the thread whose decrement brought the reference word to 0 (nobody inside any more), once");
+    OBLIGATION(g_free == ((g_try == 1 && g_destroy_ok) ? 1 : 0), "C16.join: the arena is freed only when the threading control agreed to destroy it");
+    VACUITY_END();
+}
+#endif
+
+#ifdef REG
+/* market::register_client / unregister_and_destroy_client.  The per-level client lists (std::vector<pm_client*>) are abstract: membership flags for the client c
+   the call is about and for one arbitrary other client k, plus a length per list.  TRUSTED: push_back appends, std::find returns the first position holding the
+   pointer or end(), erase removes the element at the position. */
+#define NPL 3
+struct pmclient_g { unsigned level; };
+struct cvec { int id; };
+struct market_g { int my_mutex; struct cvec my_clients[NPL]; };
+typedef struct pmclient_g *vec_iter;
+static struct market_g *g_m; static struct pmclient_g g_cc, g_kk; static bool g_in[NPL][2]; static long g_len[NPL]; static int g_locked, g_lock_calls, g_pushes, g_erases, g_dtor, g_dealloc;
+#define PMC_PRIORITY_LEVEL(c) ((c)->level)
+#define LOCK_MUTEX(m) do { __CPROVER_assert(!g_locked && &(m) == &g_m->my_mutex, "C16.register: the market mutex is taken, not twice"); g_locked = 1; g_lock_calls++; } while (0)
+#define UNLOCK_MUTEX(m) do { __CPROVER_assert(g_locked, "C16.register: unlock of a held mutex"); g_locked = 0; } while (0)
+static unsigned vec_level(struct cvec *v) { __CPROVER_assert(v >= &g_m->my_clients[0] && v <= &g_m->my_clients[NPL - 1], "C16.register: the list is one of the market's per-level client lists"); return (unsigned)(v - &g_m->my_clients[0]); }
+#define WHO(p) ((p) == &g_cc ? 0 : 1)
+static void VEC_PUSH_BACK(struct cvec *v, struct pmclient_g *p) { OBLIGATION(g_locked, "C16.register: the client lists change only under the market mutex"); unsigned l = vec_level(v); g_in[l][WHO(p)] = true; g_len[l]++; g_pushes++; }
+static vec_iter VEC_FIND(struct cvec *v, struct pmclient_g *p) { OBLIGATION(g_locked, "C16.register: the client lists are searched under the market mutex"); return g_in[vec_level(v)][WHO(p)] ? p : NULL; }
+#define VEC_END(v) ((vec_iter)NULL)
+static void VEC_ERASE(struct cvec *v, vec_iter it) { OBLIGATION(g_locked, "C16.register: the client lists change only under the market mutex"); unsigned l = vec_level(v);
+    OBLIGATION(it != NULL && g_in[l][WHO(it)], "C16.register: erase is given the position of a listed client"); g_in[l][WHO(it)] = false; g_len[l]--; g_erases++; }
+static void STUB_client_dtor(struct pmclient_g *c) { g_dtor++; OBLIGATION(!g_locked && c == &g_cc && !g_in[0][0] && !g_in[1][0] && !g_in[2][0], "C16.register: the client object is destroyed only after it left the market's lists, outside the mutex"); }
+static void STUB_deallocate(struct pmclient_g *c) { g_dealloc++; OBLIGATION(g_dtor == 1 && c == &g_cc, "C16.register: the storage is released after the destructor ran"); }
+#include "register.inc"
+static bool g_in0[NPL][2]; static long g_len0[NPL];
+static void mk_market_g(struct market_g *m) {
+    g_m = m; g_cc.level = nondet_unsigned(); g_kk.level = nondet_unsigned(); __CPROVER_assume(g_cc.level < NPL && g_kk.level < NPL);    /* arena priority level < num_priority_levels */
+    for (int l = 0; l < NPL; l++) { g_in[l][0] = g_in[l][1] = false; g_len[l] = nondet_long(); __CPROVER_assume(0 <= g_len[l] && g_len[l] < (1L << 30)); }
+    g_in[g_kk.level][1] = nondet_bool();                         /* a registered client sits in the list of its own level */
+    g_locked = g_lock_calls = g_pushes = g_erases = g_dtor = g_dealloc = 0;
+}
+static void snap(void) { for (int l = 0; l < NPL; l++) { g_in0[l][0] = g_in[l][0]; g_in0[l][1] = g_in[l][1]; g_len0[l] = g_len[l]; } }
+#define K_UNCHANGED (g_in[0][1] == g_in0[0][1] && g_in[1][1] == g_in0[1][1] && g_in[2][1] == g_in0[2][1])
+void h_register_client(void) {
+    struct market_g m; mk_market_g(&m); snap();
+    market_register_client(&m, &g_cc);
+    OBLIGATION(!g_locked && g_lock_calls == 1, "C16.register: the market mutex is taken once and released");
+    OBLIGATION(g_pushes == 1 && g_erases == 0 && g_in[g_cc.level][0] && g_len[g_cc.level] == g_len0[g_cc.level] + 1, "C16.register: the client is appended to the client list of its OWN priority level (the level whose demand its requests are added to)");
+    OBLIGATION((g_cc.level == 0 || !g_in[0][0]) && (g_cc.level == 1 || !g_in[1][0]) && (g_cc.level == 2 || !g_in[2][0]) && K_UNCHANGED, "C16.register: no other list and no other client is touched");
+    VACUITY_END();
+}
+void h_unregister_client(void) {
+    struct market_g m; mk_market_g(&m); g_in[g_cc.level][0] = true; __CPROVER_assume(g_len[g_cc.level] >= 1); snap();     /* the client was registered (in-code assertion) */
+    market_unregister_and_destroy_client(&m, &g_cc);
+    OBLIGATION(!g_locked && g_lock_calls == 1, "C16.register: the market mutex is taken once and released");
+    OBLIGATION(g_erases == 1 && g_pushes == 0 && !g_in[0][0] && !g_in[1][0] && !g_in[2][0] && g_len[g_cc.level] == g_len0[g_cc.level] - 1 && K_UNCHANGED, "C16.register: exactly the given client leaves the list of its level; no other client is touched");
+    OBLIGATION(g_dtor == 1 && g_dealloc == 1, "C16.register: the client object is destroyed and released exactly once");
     VACUITY_END();
 }
 #endif
